@@ -1,5 +1,6 @@
 /- Helper lemmas for C11, part 3: weights at the operator level, error conditions, SUS, IWO, tournament. -/
 import MahfModel.Proofs.C11Select
+import MahfModel.Proofs.C11Sus
 import Mathlib.Data.Rat.Floor
 namespace MahfModel.Selection
 set_option linter.unusedSectionVars false
@@ -178,22 +179,13 @@ theorem roulette_outcome (O : Ops F) (hfin : ∀ x, O.fin x = true) (n : Nat) (o
         intro ho c hc hall
         exact this.2 (hz.mpr ⟨ho, c, hc, (forall_objs_iff h3 c).mpr hall⟩)
 
-theorem susIndices_zero_total (O : Ops F) (ws : List F) (n : Nat) (u : F) (hne : ws ≠ []) (hz : sum ws = 0) :
-    susIndices O ws n u = some (.ok []) := by
-  cases ws with
-  | nil => exact absurd rfl hne
-  | cons w0 rest =>
-    simp only [susIndices, hz, zero_div, mul_zero, susOuter, lt_irrefl, if_false]
-
-/-- `StochasticUniversalSampling` on an evaluated population, exact arithmetic, `n ≠ 0` -/
-theorem sus_outcome (O : Ops F) (hfin : ∀ x, O.fin x = true) (hcast : ∀ k : Nat, O.ofNat k = (k : F))
-    (n : Nat) (offset u : F) (pop : Pop F) (hev : Evaluated pop) (hoff : 0 ≤ offset) (hn : n ≠ 0)
-    (hu0 : 0 ≤ u) (hu1 : u < 1) :
-    (select O (.sus n offset) (.draw u) pop = .error .exec ↔ pop = []) ∧
-    select O (.sus n offset) (.draw u) pop ≠ .error .panic ∧
-    (∀ sel, select O (.sus n offset) (.draw u) pop = .ok sel →
-      ((offset = 0 ∧ ∃ c, 0 < c ∧ ∀ x ∈ pop, x.obj = some c) → sel = []) ∧
-      (¬ (offset = 0 ∧ ∃ c, 0 < c ∧ ∀ x ∈ pop, x.obj = some c) → sel.length = n)) := by
+/-- `StochasticUniversalSampling` on an evaluated population, exact arithmetic: `Err` on an empty
+population and on a zero weight total, never a panic (for every `n`, every draw). -/
+theorem sus_outcome (O : Ops F) (hfin : ∀ x, O.fin x = true) (n : Nat) (offset u : F) (pop : Pop F)
+    (hev : Evaluated pop) (hoff : 0 ≤ offset) :
+    (select O (.sus n offset) (.draw u) pop = .error .exec ↔
+      pop = [] ∨ (offset = 0 ∧ ∃ c, 0 < c ∧ ∀ x ∈ pop, x.obj = some c)) ∧
+    select O (.sus n offset) (.draw u) pop ≠ .error .panic := by
   obtain ⟨objs, h1, h2, h3⟩ := objectives_of_evaluated hev
   rw [select_sus, h1]
   simp only
@@ -220,25 +212,17 @@ theorem sus_outcome (O : Ops F) (hfin : ∀ x, O.fin x = true) (hcast : ∀ k : 
       have hwne : ws ≠ [] := by
         intro hc; rw [hc] at hlen; exact hne (List.eq_nil_of_length_eq_zero hlen.symm)
       have hz := propWeights_sum_zero_iff O objs offset ws hp
-      by_cases hzero : sum ws = 0
-      · rw [susIndices_zero_total O ws n u hwne hzero]
-        simp only [hpne, reduceCtorEq, ne_eq, not_false_eq_true, Except.ok.injEq, true_and, false_iff]
-        intro sel hsel
-        subst hsel
-        refine ⟨fun _ => rfl, fun hnot => ?_⟩
-        exfalso; apply hnot
+      obtain ⟨w0, rest, rfl⟩ := List.exists_cons_of_ne_nil hwne
+      by_cases hzero : sum (w0 :: rest) = 0
+      · have hnpos : ¬ 0 < sum (w0 :: rest) := by rw [hzero]; exact lt_irrefl _
+        simp only [susIndices, hnpos, not_false_eq_true, if_true, true_iff, ne_eq, reduceCtorEq, and_true]
         have := hz.mp hzero
-        exact ⟨this.1, this.2.imp fun c hc => ⟨hc.1, (forall_objs_iff h3 c).mp hc.2⟩⟩
-      · have hpos : 0 < sum ws := lt_of_le_of_ne (sum_nonneg ws hnn) (Ne.symm hzero)
-        obtain ⟨is, hi1, hi2, hi3⟩ := susIndices_count O hcast ws n u hn hnn hpos hu0 hu1
-        rw [hi1]
-        simp only [hpne, reduceCtorEq, ne_eq, not_false_eq_true, Except.ok.injEq, true_and, false_iff]
-        intro sel hsel
-        subst hsel
-        refine ⟨fun hdeg => ?_, fun _ => ?_⟩
-        · exfalso; apply hzero
-          exact hz.mpr ⟨hdeg.1, hdeg.2.imp fun c hc => ⟨hc.1, (forall_objs_iff h3 c).mpr hc.2⟩⟩
-        · rw [pick_length pop is (fun j hj => by rw [← h2, ← hlen]; exact hi3 j hj), hi2]
+        exact ⟨Or.inr ⟨this.1, this.2.imp fun c hc => ⟨hc.1, (forall_objs_iff h3 c).mp hc.2⟩⟩, by simp⟩
+      · have hpos : 0 < sum (w0 :: rest) := lt_of_le_of_ne (sum_nonneg _ hnn) (Ne.symm hzero)
+        simp only [susIndices, hpos, not_true_eq_false, if_false, reduceCtorEq, false_iff, ne_eq,
+          not_false_eq_true, and_true, hpne, false_or, not_and, not_exists]
+        intro ho c hc hall
+        exact hzero (hz.mpr ⟨ho, c, hc, (forall_objs_iff h3 c).mpr hall⟩)
 
 /-! ### tournament -/
 
@@ -397,18 +381,47 @@ theorem best_outcome (pop : Pop F) (hev : Evaluated pop) :
     | some m => exact ⟨m.1, rfl⟩
 
 theorem de_outcome (O : Ops F) (y : Nat) (ss : List (List Nat)) (pop : Pop F) (hev : Evaluated pop) :
-    (∃ sel, select O (.deRand y) (.sets ss) pop = .ok sel) ∧
-    (select O (.deBest y) (.sets ss) pop = .error .exec ↔ pop = []) ∧
+    (select O (.deRand y) (.sets ss) pop = .error .exec ↔ pop.length < 2 * y + 1) ∧
+    select O (.deRand y) (.sets ss) pop ≠ .error .panic ∧
+    (select O (.deBest y) (.sets ss) pop = .error .exec ↔ pop.length < 2 * y ∨ pop = []) ∧
     select O (.deBest y) (.sets ss) pop ≠ .error .panic ∧
-    (select O (.deCurrentToBest y) (.sets ss) pop = .error .exec ↔ pop = []) ∧
+    (select O (.deCurrentToBest y) (.sets ss) pop = .error .exec ↔
+      pop = [] ∨ ∃ ind ∈ pop, (pop.filter (fun j => !sameInd j ind)).length < 2 * y - 1) ∧
     select O (.deCurrentToBest y) (.sets ss) pop ≠ .error .panic := by
   obtain ⟨hb1, hb2⟩ := best_outcome pop hev
-  refine ⟨⟨_, select_deRand O y ss pop⟩, ?_⟩
-  rw [select_deBest, select_deCurrentToBest]
-  by_cases hp : pop = []
-  · rw [hb1 hp]; simp [hp]
-  · obtain ⟨b, hb⟩ := hb2 hp
-    rw [hb]; simp [hp]
+  rw [select_deRand, select_deBest, select_deCurrentToBest]
+  refine ⟨?_, ?_, ?_, ?_, ?_, ?_⟩
+  · by_cases h : pop.length < 2 * y + 1 <;> simp [h]
+  · by_cases h : pop.length < 2 * y + 1 <;> simp [h]
+  · by_cases h : pop.length < 2 * y
+    · simp [h]
+    · by_cases hp : pop = []
+      · rw [hb1 hp]; simp [h, hp]
+      · obtain ⟨b, hb⟩ := hb2 hp
+        rw [hb]; simp [h, hp]
+  · by_cases h : pop.length < 2 * y
+    · simp [h]
+    · by_cases hp : pop = []
+      · rw [hb1 hp]; simp [h]
+      · obtain ⟨b, hb⟩ := hb2 hp
+        rw [hb]; simp [h]
+  · by_cases hp : pop = []
+    · rw [hb1 hp]; simp [hp]
+    · obtain ⟨b, hb⟩ := hb2 hp
+      rw [hb]
+      simp only [hp, false_or]
+      by_cases hany : pop.any (fun ind => decide ((pop.filter (fun j => !sameInd j ind)).length < 2 * y - 1)) = true
+      · simp only [hany, if_true, true_iff]
+        obtain ⟨ind, hi, hd⟩ := List.any_eq_true.mp hany
+        exact ⟨ind, hi, by simpa using hd⟩
+      · simp only [hany, Bool.false_eq_true, if_false, reduceCtorEq, false_iff, not_exists, not_and]
+        intro ind hi hc
+        exact hany (List.any_eq_true.mpr ⟨ind, hi, by simpa using hc⟩)
+  · by_cases hp : pop = []
+    · rw [hb1 hp]; simp
+    · obtain ⟨b, hb⟩ := hb2 hp
+      rw [hb]
+      split_ifs <;> simp
 
 theorem iwo_outcome (O : Ops F) (hfin : ∀ x, O.fin x = true) (a b : Nat) (w : Witness F) (pop : Pop F)
     (hev : Evaluated pop) :
